@@ -172,7 +172,10 @@ LEX_SEEDS = list(dict.fromkeys([
     'P1Y2M3DT4H5M6.7S', 'P1M1Y', 'P1DT', 'PT1H1S', 'P1Y1D', 'P1.5Y', 'P1H', 'PT1Y', 'PT1D', 'p1y', 'P1S', 'P0Y', 'PT0S', '-PT0S', 'P1W', 'PT1M1H',
     'P1DT1H', 'P13M', 'PT36H', 'PT1.000000S', 'P0M', 'P0D', 'P0Y0M', 'P1Y0D', 'P0DT1H',
     'x\ty', 'x\ny', ' x ', 'x  y', '\tx', 'x\r', ' 1 ', '\n1\n', ' true ', ' 2000-01-01 ', ' P1Y ', ' 0A ', ' YQ== ', ' en ', ' a:b ', '1 ', ' INF',
-    '\x0c1', '1\x0b', ' 1', '\xa01', '\x851']))
+    '\x0c1', '1\x0b', ' 1', '\xa01', '\x851', '\x0b0A', '0A\x0c', '\xa00A', '\u20030A', '0A\u2003', '0A\x1f', '\x0bYQ==', 'YQ==\xa0', 'YQ==\u2003', '\x0c2000-01-01', 'P1Y\x0b', 'true\xa0',
+    '\u2003en', 'x\x0b', '12:00:00\x0c', '\x0b2000', '--01\xa0', '\x1c1', '1\x1d', '\x1e0A', 'YQ==\x1f',
+    '2000-01-01\xa0', '\u20032000-01-01T00:00:00', '12:00:00\xa0', '2000\xa0', '2000-01\u2003', '---01\xa0', '--01-01\xa0', 'P1Y\xa0', '\u2003PT1S', 'P1M\xa0', 'P1D\u2003',
+    '1\xa0', '\u20031.5', 'a:b\xa0', '\xa0x', 'INF\xa0']))
 
 TYPE_NAMES = sorted(k[3:] for k in BUILTIN if k.startswith('xs:') and k[3:] not in ('anyAtomicType', 'error', 'NOTATION'))
 NS = {'a': 'urn:a', 'xml': 'http://www.w3.org/XML/1998/namespace'}
@@ -215,7 +218,7 @@ def lexical_grid(tier, seed):
                     k = f"xs:{tn} constructor {'accepts' if got is True else 'rejects' if got is False else got} a string " \
                         f"{'outside' if not spec else 'of'} the lexical space"
                     fam.setdefault(k, []).append({'type': tn, 'xsd': v, 's': s, 'kind': 'ctor', 'spec': spec})
-                if v == '1.1' and s == norm:
+                if v == '1.1':          # validate / is_valid on every string: they apply the whitespace normalisation of the type like the constructor
                     n += 1
                     iv = _accepts(lambda: cls.validate(s))
                     if iv != spec:
@@ -227,7 +230,7 @@ def lexical_grid(tier, seed):
                       f"{len(items)} grid strings"})
     return {'evaluations': n, 'distinct': n, 'exhaustive': False,
             'scope': f'{len(LEX_SEEDS)} valid and near-valid lexical forms x {len(TYPE_NAMES) - 1} built-in types x XSD 1.0/1.1: T.make(s) succeeds iff '
-            'normalise_T(s) is in the XSD lexical space (oracle: contracts/xsd_oracle.py); is_valid on normalised strings (XSD 1.1)',
+            'normalise_T(s) is in the XSD lexical space (oracle: contracts/xsd_oracle.py); is_valid on the same strings (XSD 1.1)',
             'failures': fails}
 
 
